@@ -117,10 +117,13 @@ Definition enqueue (s : st) (t : tid) : st :=
 Definition thread_start (s : st) (t : tid) : st :=
   enqueue (with_started s (upd (started s) t true)) t.
 
-(* sexp_thread_terminate, threads.c:139-158 (children not modelled); result: terminating self *)
+(* sexp_thread_terminate, threads.c:139-158 (children not modelled) with fixes/C11-terminate-timed-waiter.patch: a paused victim
+   stops waiting (waitp = timeoutp = 0) before it is queued for its last scheduler call; result: terminating self *)
 Definition thread_terminate (s : st) (t : tid) : st * bool :=
   let s1 := if live (th s (cur s)) then upd_th s t (set_live (th s t) false) else s in
-  let s2 := if memb t (paused s1) then enqueue (with_paused s1 (remove1 t (paused s1))) t else s1 in
+  let s2 := if memb t (paused s1)
+            then enqueue (upd_th (with_paused s1 (remove1 t (paused s1))) t (set_flags (th s1 t) false false)) t
+            else s1 in
   (s2, Nat.eqb (cur s) t).
 
 (* sexp_thread_join, threads.c:211-221 *)
